@@ -57,28 +57,46 @@ def coupled(dev, N, a, b):
     return t == "ring" and {a, b} == {0, N - 1}
 
 
+FORMS = ("name", "class", "generic", "moved")
+
+
 def raw_circuit(N, gates):
-    """like c03.build_circuit, but a gate flagged `raw` is built with the base class Gate (validates nothing)"""
+    """like c03.build_circuit, with the OBJECT FORM of every gate: `name` = add_gate(<name string>, ...); `class` = an
+    instance of the library class of that name (GATE_CLASS_MAP) handed to add_gate; `generic` (= the old flag `raw`) = an
+    instance of the base class Gate carrying that name (validates nothing); `moved` = the gate object of another
+    circuit, built there with add_gate(<name>)"""
     from qutip_qip.circuit import QubitCircuit
-    from qutip_qip.operations import Gate
+    from qutip_qip.operations import Gate, GATE_CLASS_MAP
     qc = QubitCircuit(N)
     for g in gates:
         kw = {}
         if g.value() is not None:
             kw["arg_value"] = g.value()
-        if getattr(g, "raw", False):
+        form = getattr(g, "form", None) or ("generic" if getattr(g, "raw", False) else "name")
+        if form == "generic":
             qc.add_gate(Gate(g.name, targets=(g.t or None), controls=(g.c or None), **kw))
+        elif form == "class":
+            if g.t:
+                kw["targets"] = list(g.t)
+            if g.c:
+                kw["controls"] = list(g.c)
+            qc.add_gate(GATE_CLASS_MAP[g.name](**kw))
+        elif form == "moved":
+            other = QubitCircuit(N)
+            other.add_gate(g.name, targets=(g.t or None), controls=(g.c or None), **kw)
+            qc.add_gate(other.gates[0])
         else:
             qc.add_gate(g.name, targets=(g.t or None), controls=(g.c or None), **kw)
     return qc
 
 
 class RG(G):
-    __slots__ = ("raw",)
+    __slots__ = ("raw", "form")
 
-    def __init__(self, *a, raw=False, **k):
+    def __init__(self, *a, raw=False, form=None, **k):
         super().__init__(*a, **k)
-        self.raw = raw
+        self.raw = raw or form == "generic"
+        self.form = form or ("generic" if raw else None)
 
     def value(self):
         if self.raw or self.name == "RZX":
@@ -183,7 +201,8 @@ def in_class(w):
 
 
 def wit(dev, N, gates, M=None):
-    w = {"dev": dev, "N": N, "gates": [[g.name, list(g.t), list(g.c), g.value()] for g in gates]}
+    w = {"dev": dev, "N": N, "gates": [[g.name, list(g.t), list(g.c), g.value()] +
+                                       ([g.form] if getattr(g, "form", None) not in (None, "name") else []) for g in gates]}
     if M is not None and M != N:
         w["M"] = M            # processor.num_qubits when it differs from qc.N
     return w
@@ -191,8 +210,9 @@ def wit(dev, N, gates, M=None):
 
 def gates_of(w):
     gs = []
-    for i, (n, t, c, v) in enumerate(w["gates"]):
-        gs.append(RG(n, t, c, sym=(i if v is not None else None), val=v))
+    for i, g in enumerate(w["gates"]):
+        n, t, c, v = g[:4]
+        gs.append(RG(n, t, c, sym=(i if v is not None else None), val=v, form=(g[4] if len(g) > 4 else None)))
     return gs
 
 
@@ -243,11 +263,11 @@ def apply_edit(qc, e):
         g = qc.gates[e[1]]
         g.targets, g.controls = g.controls, g.targets
     elif kind == "replace":
-        n, t, c, v = e[2]
+        n, t, c, v = e[2][:4]
         qc.remove_gate_or_measurement(index=e[1])
         qc.add_gate(n, targets=(t or None), controls=(c or None), arg_value=v, index=[e[1]])
     elif kind == "append":
-        n, t, c, v = e[1]
+        n, t, c, v = e[1][:4]
         qc.add_gate(n, targets=(t or None), controls=(c or None), arg_value=v)
     elif kind == "remove":
         qc.remove_gate_or_measurement(index=e[1])
@@ -604,6 +624,42 @@ def systematic_histories(N):
                         ("LinearSpinChain", N, [p2("SWAP", a, b)]), ("LinearSpinChain", N, [p2("ISWAP", b, a)])]
 
 
+def form_cases(full=True):
+    """(device, N, gates, kind): the OBJECT FORM of a gate - the library class instance, a generic Gate object carrying
+    the name, the gate object of another circuit - for every gate kind (one-, two-, three-qubit), every placement of the
+    multi-qubit gates; and circuits mixing the forms"""
+    one = [n for n in RESOLVABLE if decomp.SHAPE[n] == (0, 1)]
+    two = ["CNOT", "CSIGN", "SWAP", "ISWAP", "SQRTISWAP"]
+    three = ["TOFFOLI", "FREDKIN"]
+    for dev in DEVS:
+        for N in ((3, 4) if full else (3, 4)):
+            if not buildable(dev, N):
+                continue
+            for form in FORMS[1:]:
+                for name in three:
+                    for qs in itertools.permutations(range(N), 3):
+                        if not full and qs not in ((2, 0, 1), (0, 2, 1), (1, 0, 2)):
+                            continue
+                        g = placed(name, qs)
+                        yield dev, N, [RG(g.name, g.t, g.c, form=form)], "form=" + form + "/3q"
+                if not full:
+                    continue
+                for name in two:
+                    for qs in itertools.permutations(range(N), 2):
+                        g = placed(name, qs)
+                        yield dev, N, [RG(g.name, g.t, g.c, form=form)], "form=" + form + "/2q"
+                for name in one:
+                    g = placed(name, (N - 1,))
+                    yield dev, N, [RG(g.name, g.t, g.c, sym=g.sym, val=g.val, form=form)], "form=" + form + "/1q"
+            if full:
+                # the forms mixed in one circuit
+                a, b, c = 0, N - 1, 1
+                yield dev, N, [RG("TOFFOLI", [b], [a, c], form="generic"), RG("CNOT", [a], [b]),
+                               RG("FREDKIN", [a, b], [c], form="class")], "form=mixed"
+                yield dev, N, [RG("CNOT", [b], [a], form="generic"), RG("TOFFOLI", [c], [a, b], form="moved"),
+                               RG("ISWAP", [a, b], [], form="class")], "form=mixed"
+
+
 def size_cases():
     """(device, qc.N, gates, processor size): circuits on fewer qubits than the processor, and on one more"""
     for dev in DEVS:
@@ -950,7 +1006,8 @@ class C13(PropertyCheck):
         for k, ((dev, N, gs, M), o) in enumerate(zip(cases, outs)):
             st, mg, qc, bad = self._one_call(dev, N, gs, o, None, M)
             ncalls = len(CALLS)
-            inp = {"dev": dev, "N": N, "gates": [g.js() + ([1] if getattr(g, "raw", False) else []) for g in gs]}
+            inp = {"dev": dev, "N": N, "gates": [g.js() + ([getattr(g, "form", None) or "generic"] if (
+                getattr(g, "raw", False) or getattr(g, "form", None) not in (None, "name")) else []) for g in gs]}
             if M is not None:
                 inp["M"] = M
             if qc is None:
@@ -1112,6 +1169,13 @@ class C13(PropertyCheck):
                          "circuit object with in-place edits between the calls (angle, qubits, roles, a gate replaced at its "
                          "position, gates appended / removed); transpile against the stateless model on the current content, "
                          "load_circuit / run_state against a fresh processor on a deep copy")
+        # the object form of the gates
+        fc = list(form_cases())
+        self._run_cases(ctx, res, [c[:3] for c in fc], "forms", [c[3] for c in fc])
+        res.notes.append(f"object forms: {len(fc)} circuits whose gates are library class instances / generic Gate objects "
+                         "carrying the name / gate objects of another circuit (every placement of TOFFOLI, FREDKIN and the "
+                         "two-qubit gates on 3 and 4 qubits, one-qubit gates, mixed circuits) x 4 devices; the model is "
+                         "form-independent")
         # the circuit's register against the processor's
         sz = list(size_cases())
         self._run_cases(ctx, res, sz, "sizes", ["sizes=" + ("smaller" if c[1] < c[3] else "larger") for c in sz])
@@ -1239,6 +1303,8 @@ class C13(PropertyCheck):
         yield from self._multi()
         yield from self._sizes()
         yield from self._rzx()
+        for dev, N, gs, _ in form_cases():
+            yield wit(dev, N, gs)
 
     def _rzx(self):
         for N in (2, 3, 4):
@@ -1274,7 +1340,8 @@ class C13(PropertyCheck):
 
     def oracle_search(self, ctx, budget_s):
         t0 = time.time()
-        for w in itertools.chain((w for _, w in object_histories()), self._systematic()):
+        forms = (wit(dev, N, gs) for dev, N, gs, _ in form_cases())
+        for w in itertools.chain((w for _, w in object_histories()), forms, self._systematic()):
             if not self._in_theorem_class(w):
                 continue
             f, d = check_property(w)
@@ -1310,7 +1377,8 @@ class C13(PropertyCheck):
                 if n >= 2:
                     break
         n = 0
-        for w in itertools.chain((w for _, w in object_histories(full=False)), self._multi(4), self._sizes(), self._rzx()):
+        forms = (wit(dev, N, gs) for dev, N, gs, _ in form_cases(full=False))
+        for w in itertools.chain((w for _, w in object_histories(full=False)), forms, self._multi(4), self._sizes(), self._rzx()):
             if not self._in_theorem_class(w):
                 continue
             f, d = check_property(w)
